@@ -2,7 +2,7 @@
 import { Reporter, TIER, valueKind, sha } from "./common.mjs";
 import { familyPrograms, forEachCompiledParser, bFamily } from "./cases.mjs";
 import { render, skeleton } from "./spec.mjs";
-import { build, toSrc, universeFor } from "./universe.mjs";
+import { build, toSrc, universeFor, CYCLIC } from "./universe.mjs";
 import { noUndeclared, member, dcSeen, IN, DC, Prog, isPlain } from "./ref.mjs";
 
 // canonical text of a value (distinguishes kinds; optionally ignores object key order)
@@ -43,6 +43,7 @@ export function canon(v, sortKeys = false, seen = new Set()) {
 
 // is d a projection of x? returns null or a reason
 export function projectionFault(d, x, path = "$") {
+  if (path.length > 400) return null; // cyclic input reproduced by a position that returns it as it is
   if (d === null || d === undefined || typeof d !== "object") {
     if (typeof d === "function") return d === x ? null : `${path}: function replaced`;
     return Object.is(d, x) ? null : `${path}: leaf ${canon(d)} is not the input's ${canon(x)}`;
@@ -127,6 +128,10 @@ const OPTIONS = [
 export function checkParser({ rep, stats, parser, parserName, spec, refProg, vx, typeText, skel, program }) {
   const src = toSrc(vx);
   const fail = (what, monitor) => {
+    if (vx.cyclic && /Maximum call stack size exceeded/.test(what)) {
+      // one cause whatever the type: nothing in the runtime tracks the values it is inside of
+      return rep.violation("C03 cyclic input : stack overflow in validate / safeParse / parse", `${monitor}: ${typeText} on ${src}: ${what}`, { engine: "E-src", program, parser: parserName, type: typeText, case_id: skel.replace(/\blit:\w+/g, "_"), value: src, monitor, what });
+    }
     // identity = monitor + symptom with option names, values and sizes abstracted away
     const sig = what.replace(/\[(default|strict|sorted|strict\+sorted)\]/g, "").replace(/parsed data .*? (is not accepted|carries a key)/, "parsed data $1").replace(/: \$[^:]*:/, ":").replace(/-?\d+/g, "N").replace(/"[^"]*"/g, "S").replace(/\s+/g, " ").trim().slice(0, 110);
     rep.violation(`C03 ${monitor} : ${sig} : ${skel.replace(/\blit:\w+|string|number|boolean|null|undefined|bigint|Date|any|never|typed|void|unknown/g, "_")}`, `${monitor}: ${typeText} on ${src}: ${what}`, { engine: "E-src", program, parser: parserName, type: typeText, value: src, monitor, what }, { valueSrc: src, valueKind: valueKind(build(vx)) });
@@ -228,7 +233,7 @@ export async function run() {
     const skel = skeleton(spec0, refProg);
     const typeText = render(spec0);
     let acc = "";
-    for (const vx of U) {
+    for (const vx of [...U, ...CYCLIC]) {
       checkParser({ rep, stats, parser, parserName: name, spec, refProg, vx, typeText, skel, program: text });
     }
     // outcome fingerprint: accept vector in strict mode over the first 60 values
@@ -257,7 +262,7 @@ export async function run() {
   for (const { parser, spec, src } of bf.items) {
     stats.bParsers++;
     const U = universeFor(emptyProg, spec, { mutantCap: 150 });
-    for (const vx of U) checkParser({ rep, stats, parser, parserName: parser.name, spec, refProg: emptyProg, vx, typeText: src, skel: "b:" + skeleton(spec), program: "// " + src });
+    for (const vx of [...U, ...CYCLIC]) checkParser({ rep, stats, parser, parserName: parser.name, spec, refProg: emptyProg, vx, typeText: src, skel: "b:" + skeleton(spec), program: "// " + src });
   }
   if (samples.length < 1) samples.push({ note: "no sample slot hit" });
   return rep.finish({
